@@ -21,6 +21,9 @@
 
 #include <dirent.h>
 #include <sched.h>
+#include <poll.h>
+#include <sys/mman.h>
+#include <sys/syscall.h>
 
 namespace c11 {
 
@@ -28,42 +31,227 @@ using sx::fail;
 namespace gg = galois::graphs;
 
 // ---------------------------------------------------------------------------
-// Runtime.  Created lazily in the worker (threads do not survive fork).  The
-// thread pool sizes itself from the CPUs the process may run on; we only need
-// T <= 4, and 16 workers x 16 pool threads would make every
-// FileGraph::fromFileInterleaved wake 16 threads, so the pool is created while
-// the affinity mask is narrowed to 4 CPUs and the mask of every thread is
-// widened again afterwards (threads are not bound: GALOIS_DO_NOT_BIND_THREADS).
+// Runtime.  Created lazily in the worker (threads do not survive fork).
+//
+// * The thread pool sizes itself from the CPUs the process may run on; only
+//   T <= 4 is needed, and a 16-thread pool per worker would make every
+//   FileGraph::fromFileInterleaved wake 16 threads, so the pool is created
+//   while the affinity mask is narrowed to 4 CPUs.
+// * Galois' master thread SPINS while its helpers run.  With 16 workers x 4
+//   threads on 16 CPUs a helper is regularly queued behind a spinning master
+//   and a parallel region costs milliseconds.  The harness therefore hands out
+//   CPUs explicitly: a table in shared memory (created in main, inherited by
+//   the workers) says which process owns which CPU; a run with T threads takes
+//   T CPUs (all or nothing, entries of dead processes are reclaimed) and pins
+//   Galois thread i to its i-th CPU.  Pure scheduling hygiene: it changes
+//   nothing the property talks about.
 // ---------------------------------------------------------------------------
-inline void rt() {
-  static galois::SharedMemSys* G = nullptr;
-  if (G)
+struct CpuTable {
+  int ncpu;
+  int cpu[64];
+  std::atomic<int> owner[64];
+};
+inline CpuTable*& cpu_table() {
+  static CpuTable* t = nullptr;
+  return t;
+}
+inline void cpu_table_init() { // in main(), before any fork
+  CpuTable* t = (CpuTable*)mmap(nullptr, sizeof(CpuTable),
+                                PROT_READ | PROT_WRITE,
+                                MAP_SHARED | MAP_ANONYMOUS, -1, 0);
+  if (t == MAP_FAILED)
     return;
-  cpu_set_t all, few;
+  cpu_set_t all;
   CPU_ZERO(&all);
-  CPU_ZERO(&few);
   sched_getaffinity(0, sizeof all, &all);
+  t->ncpu = 0;
+  for (int c = 0; c < CPU_SETSIZE && t->ncpu < 64; ++c)
+    if (CPU_ISSET(c, &all)) {
+      t->cpu[t->ncpu] = c;
+      t->owner[t->ncpu].store(0);
+      t->ncpu++;
+    }
+  cpu_table() = t;
+}
+
+struct Runtime {
+  galois::SharedMemSys* G = nullptr;
+  unsigned maxT           = 0;
+  std::vector<pid_t> ostid; // by Galois thread id
+  cpu_set_t all;
+  std::vector<int> bound; // CPU each pool thread is currently pinned to
+};
+inline Runtime& runtime() {
+  static Runtime r;
+  return r;
+}
+
+inline void rt() {
+  Runtime& R = runtime();
+  if (R.G)
+    return;
+  cpu_set_t few;
+  CPU_ZERO(&R.all);
+  CPU_ZERO(&few);
+  sched_getaffinity(0, sizeof R.all, &R.all);
   int k = 0;
   for (int c = 0; c < CPU_SETSIZE && k < 4; ++c)
-    if (CPU_ISSET(c, &all)) {
+    if (CPU_ISSET(c, &R.all)) {
       CPU_SET(c, &few);
       ++k;
     }
   sched_setaffinity(0, sizeof few, &few);
-  G = new galois::SharedMemSys();
-  if (DIR* d = opendir("/proc/self/task")) {
-    while (struct dirent* e = readdir(d)) {
-      int tid = atoi(e->d_name);
-      if (tid > 0)
-        sched_setaffinity(tid, sizeof all, &all);
-    }
-    closedir(d);
-  }
+  R.G    = new galois::SharedMemSys();
+  auto& tp = galois::substrate::getThreadPool();
+  R.maxT = tp.getMaxThreads();
+  R.ostid.assign(R.maxT, 0);
+  R.bound.assign(R.maxT, -1);
+  tp.run(R.maxT, [&R]() {
+    R.ostid[galois::substrate::ThreadPool::getTID()] =
+        (pid_t)syscall(SYS_gettid);
+  });
+  for (pid_t t : R.ostid)
+    sched_setaffinity(t, sizeof R.all, &R.all);
 }
 
+// Holds T CPUs for the duration of one run.
+class CpuLease {
+  std::vector<int> held;
+
+public:
+  explicit CpuLease(int T) {
+    Runtime& R  = runtime();
+    CpuTable* t = cpu_table();
+    if (!t || getenv("C11_NO_CPU_LEASE"))
+      return;
+    T = std::max(1, std::min(T, std::min((int)R.maxT, t->ncpu)));
+    int me    = (int)getpid();
+    int start = (me * 4) % t->ncpu;
+    for (unsigned attempt = 0;; ++attempt) {
+      for (int i = 0; i < t->ncpu && (int)held.size() < T; ++i) {
+        int s   = (start + i) % t->ncpu;
+        int cur = t->owner[s].load();
+        if (cur != 0 && cur != me && kill(cur, 0) == -1 && errno == ESRCH)
+          t->owner[s].compare_exchange_strong(cur, 0), cur = 0;
+        if (cur == 0 && t->owner[s].compare_exchange_strong(cur, me))
+          held.push_back(s);
+      }
+      if ((int)held.size() == T)
+        break;
+      release();
+      usleep(100 + (me * 37 + attempt * 101) % 400);
+    }
+    for (int i = 0; i < (int)R.maxT; ++i) {
+      if (i < T) {
+        int c = t->cpu[held[i]];
+        if (R.bound[i] != c) {
+          cpu_set_t one;
+          CPU_ZERO(&one);
+          CPU_SET(c, &one);
+          sched_setaffinity(R.ostid[i], sizeof one, &one);
+          R.bound[i] = c;
+        }
+      } else if (R.bound[i] != -1) { // idle helpers float
+        sched_setaffinity(R.ostid[i], sizeof R.all, &R.all);
+        R.bound[i] = -1;
+      }
+    }
+  }
+  void release() {
+    CpuTable* t = cpu_table();
+    for (int s : held)
+      t->owner[s].store(0);
+    held.clear();
+  }
+  ~CpuLease() { release(); }
+};
+
 inline void env_setup() {
-  setenv("GALOIS_DO_NOT_BIND_THREADS", "1", 1);
+  setenv("GALOIS_DO_NOT_BIND_THREADS", "1", 1); // the lease pins them instead
   setenv("GALOIS_DEBUG_SKIP", "1", 1); // gDebug() chatter off (asserts stay on)
+  cpu_table_init();
+}
+
+// ---------------------------------------------------------------------------
+// Crash probe.  A call that kills the process would take the worker (and the
+// rest of its 64-input chunk) with it and every such input would be reported
+// under the one key "<case>:crash".  Calls that are known or suspected to die
+// are therefore first tried in a forked child; the child has only the calling
+// thread, so it runs with ONE active thread, where every Galois parallel
+// construct executes inline (nothing in it may use ThreadPool::run with more
+// than one thread, e.g. FileGraph::fromFileInterleaved).  Returns "" if the
+// child survived (or the probe was inconclusive), else how it died.
+// ---------------------------------------------------------------------------
+template <class F>
+std::string dies_in_child(F f) {
+  int pfd[2];
+  if (pipe(pfd) != 0)
+    return "";
+  fflush(stdout);
+  fflush(stderr);
+  pid_t p = fork();
+  if (p < 0) {
+    close(pfd[0]);
+    close(pfd[1]);
+    return "";
+  }
+  if (p == 0) {
+    close(pfd[0]);
+    dup2(pfd[1], 1);
+    dup2(pfd[1], 2);
+    galois::setActiveThreads(1);
+    try {
+      f();
+    } catch (...) {
+    }
+    _exit(0);
+  }
+  close(pfd[1]);
+  std::string out;
+  char buf[4096];
+  double t0     = sx::now();
+  bool timedout = false;
+  for (;;) {
+    struct pollfd pf = {pfd[0], POLLIN, 0};
+    int r            = poll(&pf, 1, 1000);
+    if (r > 0) {
+      ssize_t k = read(pfd[0], buf, sizeof buf);
+      if (k <= 0)
+        break;
+      if (out.size() < (1u << 16))
+        out.append(buf, (size_t)k);
+    } else if (sx::now() - t0 > 30) {
+      timedout = true;
+      kill(p, SIGKILL);
+      break;
+    }
+  }
+  close(pfd[0]);
+  int status = 0;
+  waitpid(p, &status, 0);
+  if (timedout || (WIFEXITED(status) && WEXITSTATUS(status) == 0))
+    return "";
+  std::string why;
+  std::istringstream is(out);
+  std::string line;
+  while (std::getline(is, line))
+    if (line.find("Assertion") != std::string::npos ||
+        line.find("ERROR: AddressSanitizer") != std::string::npos ||
+        line.find("SUMMARY") != std::string::npos ||
+        line.find("ERROR:") != std::string::npos) {
+      size_t a = line.find("Assertion");
+      why += (a != std::string::npos ? line.substr(a) : line) + " ";
+      if (why.size() > 500)
+        break;
+    }
+  if (why.empty())
+    why = "(no diagnostic)";
+  if (why.size() > 600)
+    why.resize(600);
+  return (WIFSIGNALED(status)
+              ? "killed by signal " + std::to_string(WTERMSIG(status))
+              : "exit status " + std::to_string(WEXITSTATUS(status))) +
+         ": " + why;
 }
 
 // ---------------------------------------------------------------------------
